@@ -845,6 +845,21 @@ class Interp:
         it = self.resolve(self.eval(st.iter, frame))
         spec = self.cfg.loop_specs.get(self._loop_key(st, frame))
         seq = None
+        if isinstance(it, Obj) and hasattr(it.cls, "__next__") and hasattr(it.cls, "__iter__"):
+            # an object of an interpreted iterator class (e.g. LineIterator): `for x in obj` calls obj.__iter__() once and
+            # obj.__next__() per iteration; StopIteration ends the loop
+            obj = self.call(self.load_attr(it, "__iter__"), [])
+
+            def next_fn(interp, k, want_end, obj=obj):
+                try:
+                    item = interp.call(interp.load_attr(obj, "__next__"), [])
+                except PyRaise as pr:
+                    if isinstance(pr.exc, StopIteration):
+                        return _MISSING
+                    raise
+                return item
+
+            it = AbsIter(next_fn, tag=f"iter({it.tag})")
         if isinstance(it, AbsIter):
             if spec is None:
                 raise OutsideSubset(f"loop over an abstract iterator in {frame.name} needs a loop contract")
